@@ -10,3 +10,6 @@ __all__ = ["AnalysisError"]
 class AnalysisError(Exception):
     """The analysis itself cannot run (anchor vanished, construct outside the
     interpreter's subset, instance count below the floor).  Exit code 2."""
+
+import threading as _threading
+_threading.stack_size(256 * 1024 * 1024)     # generator bodies of the evaluated code run on threads of their own (deep recursion)
